@@ -199,9 +199,18 @@ def run(ctx) -> list[Inst]:
                     else:
                         detail = 'the error-count test does not dominate the return of the specification'
     construct = '(a) syntax errors make compile() fail'
+    # raises that belong to the end-of-input test (clause a8) say nothing about syntax errors inside the input
+    eof_raises = set()
+    for n in own_nodes(f.node):
+        if isinstance(n, ast.If) and 'EOF' in stmt_text(n.test):
+            for x in ast.walk(n):
+                if isinstance(x, ast.Raise):
+                    eof_raises.add(id(x))
     # any other error handling present (a listener of the package, a raise after the parse)?
     other_handling = False
     for n in own_nodes(f.node):
+        if id(n) in eof_raises:
+            continue
         if isinstance(n, ast.Call) and isinstance(n.func, ast.Attribute) and (
                 n.func.attr == 'addErrorListener' or n.func.attr in installers):
             other_handling = True
@@ -213,6 +222,8 @@ def run(ctx) -> list[Inst]:
     # a listener that can return normally is no handling unless something else tests for errors afterwards
     post = False
     for n in own_nodes(f.node):
+        if id(n) in eof_raises:
+            continue
         nn = cfg.node_of(n) if isinstance(n, ast.stmt) else None
         if isinstance(n, ast.Raise) and nn is not None and cfg.dominates(parse_node, nn) and nn is not parse_node:
             post = True
